@@ -56,6 +56,33 @@ CHECKS = {
         technique="TLA+ byte-level decoder state machine explored by TLC; every explored input replayed into the real decoder",
         engine="tlc+vh",
     ),
+    "C05": dict(
+        category="model_checking",
+        text="LinkOps.tla specifies the link of every Store/ComputeLink as a function of (prototype, value) only and loads as "
+             "succeeding exactly after a store; TLC enumerates every history inside the bounds and checks the two "
+             "invariants on the specification; the harness replays each history on a real link system over three storage "
+             "backends with rotating concrete prototypes/values/variants (other node implementation, reversed insertion "
+             "order), compares links relationally and against an independently assembled CID, and re-hashes what loads return.",
+        design_ref="DESIGN.md section 4, C05",
+        note="<= 4 operations over 2 values x 2 prototypes per history; CIDv0 uses dag-cbor registered under the dag-pb code in "
+             "the harness process; trusted: TLC, crypto/*, harness.",
+        technique="TLA+ history model; TLC-generated histories replayed into a real LinkSystem with an independent CID oracle",
+        engine="tlc+vh",
+    ),
+    "C06": dict(
+        category="fault_enumeration",
+        text="Linking.tla models Load/LoadRaw/LoadPlusRaw/Fill as the multi-step program of linking/functions.go (open, pulls "
+             "through the tee, decoder verdict, drain, compare) against a storage that corrupts, truncates, extends, "
+             "substitutes, short-reads and fails; LinkStore.tla does the same for Store with failing writers/encoders. TLC "
+             "checks NoUnverifiedData, MismatchWins, IoErrorsSurface, NoCommitOnFailure over every combination and emits "
+             "the scenario classes with the prescribed result; the harness instantiates each class at every offset of real "
+             "blocks of every codec and hash function through a scripted BlockReadOpener / failing writer.",
+        design_ref="DESIGN.md section 4, C06",
+        note="The specification's blocks are a toy self-delimiting codec with an injective hash; the binding to real codecs is "
+             "by fault class x offset enumeration on real blocks; trusted: TLC, harness scripted reader/writer.",
+        technique="TLA+ multi-step load/store machines under a faulty environment; scenario classes instantiated exhaustively on real blocks",
+        engine="tlc+vh",
+    ),
     "C12": dict(
         category="model_checking",
         text="Assembler.tla is the builder/assembler protocol as a state machine (one action per public call, the two "
